@@ -69,7 +69,14 @@ def decide(run: core.Run, rule: str, search):
         lines.append(f"KNOWN-FINDING: property={prop} {key}: {f['desc'][:200]}")
     if violations:
         f = violations[0]
+        minimal = None
+        try:
+            from harness import shrink
+            minimal = shrink.minimal_for(f["key"], f["replay"])
+        except Exception:
+            minimal = None
         path = core.write_replay(prop, f["key"], {"property": prop, "key": f["key"], "desc": f["desc"], "input": f["replay"],
+                                                   "minimal": minimal,
                                                    "seed": run.seed, "tier": run.tier, "found_by": found_by,
                                                    "others": len(violations) - 1,
                                                    "also_broken": broken})
